@@ -415,6 +415,26 @@ class CFront(object):
             fn = z3.Function("call_%s$%s" % (name, ctx.num.name), *([z3.IntSort()] * (len(args) + 1)))
             r = fn(*[it.Z(ctx.unwrap(a, T_ANY)) for a, _ in args])
             return r, CType("int")
+        if name in ("sqrt", "pow", "fabs", "floor", "fmod"):
+            num = ctx.num
+            vals = [ctx.to_float(a) for a, _ in args]
+            if name == "sqrt":
+                self.oblige("sqrt-of-non-negative:%s" % self.src(n), num.ge(vals[0], num.const(0.0)))
+                return it.sqrt_value(vals[0], False), CType("double")
+            if name == "pow":
+                return it.float_pow(vals[0], vals[1], False), CType("double")
+            if name == "fabs":
+                return num.abs(vals[0]), CType("double")
+            if name == "floor":
+                return num.floor(vals[0]), CType("double")
+            if name == "fmod":
+                if num.name != "R":
+                    raise VerifError("fmod outside model R")
+                self.oblige("fmod-operands:%s" % self.src(n), z3.And(vals[0] >= 0, vals[1] > 0))
+                q = ctx.fresh("fmodq", z3.IntSort())
+                m = ctx.fresh("fmodm", z3.RealSort())
+                ctx.assume(z3.And(vals[0] == z3.ToReal(q) * vals[1] + m, 0 <= m, m < vals[1], q >= 0))
+                return m, CType("double")
         if name == "realloc":
             return self.do_realloc(n, args), CType("structarr", self._realloc_struct)
         if name == "calloc":
